@@ -552,11 +552,35 @@ class LoopExec:
 
 def _replay(ctx, meth: str, n: int, wmap) -> List[tuple]:
     ci, prog = mw(ctx)
-    fn = prog.method("MatlabWrapper", meth)
-    loops = [l for l in fn.body if isinstance(l, ast.For)]
-    if len(loops) != 1:
+    fn, loop = _find_replay_loop(prog, ci, prog.method("MatlabWrapper", meth), meth)
+    return LoopExec(fn, loop, n, wmap).run()
+
+
+REPLAY_METHODS = ("generate_wrapper", "mex_function")      # each is replayed on its own
+
+
+def _find_replay_loop(prog, ci, fn, meth: str, depth: int = 2):
+    """The loop over the allocated ids in `meth`, or in a helper method that `meth` calls unconditionally (a long
+    method split into parts keeps its replay loop in one of them)."""
+    def is_id_loop(l):
+        return isinstance(l, ast.For) and "wrapper_id" in unparse(l.iter)
+    loops = [l for l in fn.body if is_id_loop(l)] or [l for l in fn.body if isinstance(l, ast.For)]
+    if len(loops) == 1:
+        return fn, loops[0]
+    if len(loops) > 1:
         raise AnalysisError(f"{meth}: expected one top-level replay loop, found {len(loops)}")
-    return LoopExec(fn, loops[0], n, wmap).run()
+    found = []
+    if depth > 0:
+        for st in fn.body:
+            for c in ast.walk(st):
+                if isinstance(c, ast.Call) and isinstance(c.func, ast.Attribute) and unparse(c.func.value) == "self" \
+                        and not guards_of(c, fn, include_exits=False):
+                    h = prog.find_method(ci, c.func.attr)
+                    if h is not None and h[1] is not fn and c.func.attr not in REPLAY_METHODS and any(is_id_loop(l) for l in h[1].body):
+                        found.append(_find_replay_loop(prog, ci, h[1], f"{meth} -> {c.func.attr}", depth - 1))
+    if len(found) != 1:
+        raise AnalysisError(f"{meth}: expected one top-level replay loop, found {len(found)}")
+    return found[0]
 
 
 def rule_replay_loops(ctx, rep: Report, rid="I5"):
